@@ -101,7 +101,24 @@ CHECKS = {
 
 NOT_YET = {}
 
+CHECKS["C20"] = {
+    "modules": ["PGV.Props.C20"], "audits": ["PGV/Audit/C20.lean"],
+    "streams": ["dump"], "thorough_seeds": 4,
+    "assumptions": [
+        "reflect transcription on the GoVal tree; float text (strconv.AppendFloat 'f', -1, bitSize) is carried on the value by the harness",
+        "in scope: structs, pointers to structs, slices/arrays, maps with string/integer/bool keys, strings without characters needing escapes, integers, unsigned integers, floats, bools; interface fields, pointers to scalars, time.Time, func/chan are excluded by the property",
+        "Go map iteration order is unobservable: any order of map entries is accepted",
+        "that Spec.Json.doc is the document encoding/json produces is not a theorem: the harness decodes the implementation's output and the standard encoding with encoding/json and compares the documents (independent oracle)",
+    ],
+    "explanation": "C20_dump_is_print: for every in-scope value of any shape and depth the model of the dumper writes exactly print(doc v) (mutual structural induction); stream dump compares GetDumpStructStr byte for byte with the model and, independently, as decoded JSON with the standard encoder's output",
+}
+
 MANIFEST_TEXT = {
+    "C20": {
+        "technique": "Lean 4 refinement theorem dump = print . doc (mutual structural induction over value trees) + differential correspondence + independent encoding/json oracle",
+        "text": "Theorem C20_dump_is_print (with C20_object / C20_elements / C20_entries / C20_dump_appends): for EVERY in-scope value — field-less structs, first or all fields unexported, any nesting depth, nil and multi-level pointers, nil/empty/any-length slices and arrays, nil/empty/multi-entry maps — the dumper's buffer grows by exactly the compact JSON text of the value's document (objects with single commas between exported members, booleans as strings, nil slice [], nil map {}, nil pointer null). Tie: stream dump compares GetDumpStructStr with the model byte for byte (any map order) and decodes it with encoding/json against the standard encoding of the value.",
+        "note": "Trusted: Lean kernel; Spec.Json.print as the definition of compact JSON text (well-formedness of print is by construction of the grammar, a parser round-trip theorem is future work); doc = what encoding/json produces is validated by the oracle, not proved. Known findings: []byte (F-C20-d) and embedded structs (F-C20-e).",
+    },
 
     "C02": {
         "technique": "Lean 4 theorems (one-step equations of the rule loops, getError) + differential correspondence on whole error strings",
